@@ -163,6 +163,61 @@ func (si *slotInfo) origin(v ssa.Value, depth int) (slotRef, bool) {
 	return slotRef{}, false
 }
 
+// releaseWrappers: functions of the package that release (call redeem on) the elements of one of their slice
+// parameters — an extracted "release all the children of this slot" helper. Value: the parameter index.
+func (si *slotInfo) releaseWrappers(p *core.Prog) map[*ssa.Function]int {
+	out := map[*ssa.Function]int{}
+	for _, g := range p.Funcs {
+		if !p.InSubject(g) || g.Parent() != nil {
+			continue
+		}
+		core.EachInstr(g, func(i ssa.Instruction) {
+			c, ok := i.(ssa.CallInstruction)
+			if !ok {
+				return
+			}
+			rv, m := recvOf(c)
+			if rv == nil || m != "redeem" {
+				return
+			}
+			ld, ok := rv.(*ssa.UnOp)
+			if !ok || ld.Op != token.MUL {
+				return
+			}
+			ia, ok := ld.X.(*ssa.IndexAddr)
+			if !ok {
+				return
+			}
+			for k, prm := range g.Params {
+				if ia.X == ssa.Value(prm) {
+					out[g] = k
+				}
+			}
+		})
+	}
+	return out
+}
+
+// wrapperRelease: the call releases the children of a slot through a release wrapper; returns the slot.
+func (si *slotInfo) wrapperRelease(c ssa.CallInstruction, wrappers map[*ssa.Function]int) (slotRef, bool) {
+	g := core.StaticCallee(c)
+	if g == nil {
+		return slotRef{}, false
+	}
+	k, ok := wrappers[g]
+	if !ok || k >= len(c.Common().Args) {
+		return slotRef{}, false
+	}
+	ld, ok := c.Common().Args[k].(*ssa.UnOp)
+	if !ok || ld.Op != token.MUL {
+		return slotRef{}, false
+	}
+	if n, f, ok := si.slotFieldAddr(ld.X); ok {
+		return slotRef{n, f, nil, ld}, true
+	}
+	return slotRef{}, false
+}
+
 func sameIndex(a, b ssa.Value) bool {
 	if a == nil || b == nil {
 		return a == nil && b == nil
@@ -232,6 +287,7 @@ func Slots(p *core.Prog, r *core.Report) {
 	r.Count("slot_fields", nSlots)
 	r.Floor("slot_fields", 8)
 	prune := core.OnlyWhenPathTrue(recycleSuffix)
+	wrappers := si.releaseWrappers(p)
 
 	nRun, nRel := 0, 0
 	for _, f := range p.Funcs {
@@ -245,12 +301,18 @@ func Slots(p *core.Prog, r *core.Report) {
 				return
 			}
 			rv, m := recvOf(c)
-			if rv == nil {
-				return
-			}
-			ref, ok := si.origin(rv, 0)
-			if !ok {
-				return
+			var ref slotRef
+			if wref, isW := si.wrapperRelease(c, wrappers); isW {
+				ref, m = wref, "redeem"
+			} else {
+				if rv == nil {
+					return
+				}
+				var ok bool
+				ref, ok = si.origin(rv, 0)
+				if !ok {
+					return
+				}
 			}
 			switch m {
 			case "Validate":
@@ -319,6 +381,9 @@ func Slots(p *core.Prog, r *core.Report) {
 								if ref2, ok := si.origin(rv2, 0); ok && ref2.parent == ref.parent && ref2.field == ref.field && again == nil {
 									again = x
 								}
+							}
+							if ref2, ok := si.wrapperRelease(c2, wrappers); ok && ref2.parent == ref.parent && ref2.field == ref.field && again == nil {
+								again = x
 							}
 						}
 					}
